@@ -342,6 +342,14 @@ pub fn expectations(hist: &History, frame_max: usize) -> Vec<ChannelExpectation>
         let mut tag_channel: Vec<u16> = Vec::new();
         let mut cancelled: Vec<bool> = Vec::new();
         for o in ops {
+            if let Op::Consume { .. } = &o.op {
+                if !matches!(o.result, OpResult::Consumer { .. }) {
+                    // failed / skipped consume: keep consumer slots aligned with the interpreter
+                    tags.push(String::new());
+                    tag_channel.push(o.ch_id);
+                    cancelled.push(true);
+                }
+            }
             if o.result == OpResult::Skipped {
                 continue;
             }
